@@ -98,7 +98,11 @@ def gen_queries(rng, src, tier):
             a = rng.choice(['bool', 'str', 'int', 'float', 'list', 'dict'])
         else:
             a = rng.choice(pygen.MODS + ['sys'])
-        qs.append({'kind': k, 'arg': a, 'n': rng.randrange(0, 5), 'm': rng.randrange(0, 5)})
+        q = {'kind': k, 'arg': a, 'n': rng.randrange(0, 5), 'm': rng.randrange(0, 5)}
+        if rng.random() < 0.25:
+            # history: another program is parsed in the same report between two queries of the main code
+            q['distract'] = pygen.Gen(rng, max_depth=2).program(2)
+        qs.append(q)
     return qs
 
 
